@@ -232,7 +232,7 @@ package mqtt
 //@   assigns nothing
 //@   loop 1 iterlet sb0 msnap[uint16, *Message] = mapSnap(subBuffer)
 //@   loop 1 invariant subBuffer != nil
-//@   ensures[C06] err_out: result != nil
+//@   ensures[C01,C06,C09,C13,C16] err_out: result != nil
 //@   ensures[C04] exit_counts: served() <= 1 && written() <= 1
 //@   ensures[C04] exit_order: served() == 1 && written() == 1 && itIsPublish() ==> evIndex("Handler.Serve", 0) < evIndex("(*BaseClient).write", 0)
 //@   ensures[C04] exit_qos2: itIsPublish() && itPublish().Message.QoS == QoS2 ==> served() == 0
